@@ -56,7 +56,8 @@ Base == [camel |-> FALSE, query |-> "Query", mutation |-> "", subscription |-> "
     [k |-> "object", name |-> "Item", ifaces |-> <<"Node">>, desc |-> "an item", dres |-> "dr_item", rt |-> "",
        fields |-> << Fld(<<"node", "id">>, Named("ID"), <<>>, "node_id", "", ""), Fld(<<"owner">>, Named("Person"), <<>>, "owner", "r_owner", ""),
                      Fld(<<"item", "level">>, NN(Named("Level")), <<>>, "item_level", "", "") >>],
-    [k |-> "object", name |-> "Person", ifaces |-> <<"Node">>, desc |-> "", dres |-> "", rt |-> "",
+    \* its description is the marker BSLASH: a single line that ENDS WITH A BACKSLASH (expanded by the harness)
+    [k |-> "object", name |-> "Person", ifaces |-> <<"Node">>, desc |-> "BSLASH", dres |-> "", rt |-> "",
        fields |-> << Fld(<<"node", "id">>, Named("ID"), <<>>, "node_id", "", ""), Fld(<<"full", "name">>, Named("String"), <<>>, "full_name", "", "") >>],
     [k |-> "union", name |-> "U", members |-> <<"Item", "Person">>, desc |-> "either", rt |-> "rt_u"],
     [k |-> "enum", name |-> "Level", values |-> << [name |-> "LOW", dep |-> ""], [name |-> "HIGH", dep |-> "too high"] >>, desc |-> ""],
